@@ -2244,7 +2244,10 @@ Please provide `meta` if the result is unexpected.
                 *self.by,
             )
         )
-        if split_out is not True:
+        if self.sort:
+            # as for the other reductions, sorted output is a single partition
+            result = result.repartition(npartitions=1).map_partitions(M.sort_index)
+        elif split_out is not True:
             result = result.repartition(npartitions=split_out)
         return result
 
